@@ -67,7 +67,7 @@ def isPipe (c : Char) : Bool := c = '|'
 /-- `value_as_tags(..).ok()` -/
 def valueAsTags : Y → Option (List Str)
   | .str s => some (tagLoop [] ((split isComma s).map trim))
-  | .seq l => match l.mapM asStrLike with
+  | .seq l => match mapOpt asStrLike l with
     | some es => some (tagLoop [] es)
     | none => none
   | _ => none
@@ -99,8 +99,8 @@ def rawServings (v : Y) : Option (List Nat) :=
   match asU32 v with
   | some n => some [n]
   | none => match v with
-    | .str s => (split isPipe s).mapM (fun e => extractValue (trim e))
-    | .seq l => l.mapM servingOfElem
+    | .str s => mapOpt (fun e => extractValue (trim e)) (split isPipe s)
+    | .seq l => mapOpt servingOfElem l
     | _ => none
 
 /-- `value_as_servings(..).ok()` -/
